@@ -50,6 +50,21 @@ type PtrSelfer struct {
 func (p *PtrSelfer) CodecEncodeSelf(e *codec.Encoder) { e.MustEncode(p.Ss) }
 func (p *PtrSelfer) CodecDecodeSelf(d *codec.Decoder) { d.MustDecode(&p.Ss) }
 
+// a MissingFielder with pointer receivers: Encode reads the map it returns
+type MF struct {
+	A     int
+	Extra map[string]interface{}
+}
+
+func (m *MF) CodecMissingField(field []byte, value interface{}) bool {
+	if m.Extra == nil {
+		m.Extra = map[string]interface{}{}
+	}
+	m.Extra[string(field)] = value
+	return true
+}
+func (m *MF) CodecMissingFields() map[string]interface{} { return m.Extra }
+
 type MBS []interface{}
 
 func (MBS) MapBySlice() {}
@@ -86,6 +101,8 @@ type special struct {
 	PP   *PtrBin
 	Raw  codec.Raw
 	Ext  codec.RawExt
+	MFv  MF
+	MFs  []MF
 }
 
 // a comparable key type with a pointer-receiver text marshaler: map keys are never addressable
@@ -135,6 +152,8 @@ func randSpecial(r *vh.Rng, format string) special {
 		Nest: map[string][]string{"b": append([]string(nil), keys[2:6]...), "a": append([]string(nil), keys[:4]...)},
 		Ext:  codec.RawExt{Tag: uint64(1 + r.Intn(100)), Data: r.Bytes(1 + r.Intn(9)), Value: "v"},
 	}
+	s.MFv = MF{A: 1, Extra: map[string]interface{}{"zz": "top", "aa": []interface{}{"l", "k"}, "mm": int64(3)}}
+	s.MFs = []MF{{A: 2, Extra: map[string]interface{}{"q": "r"}}, {A: 3}}
 	p := pb()
 	s.PP = &p
 	for _, k := range keys {
